@@ -336,10 +336,10 @@ def prepare_a2c_batch(
 
     flat_obs = obs.reshape(-1, *obs.shape[2:])
 
-    values = value_function(flat_obs).squeeze()
+    values = value_function(flat_obs).squeeze(-1)
     values = values.reshape(T, N)
 
-    next_values_bootstrap = value_function(last_observation).squeeze()
+    next_values_bootstrap = value_function(last_observation).squeeze(-1)
     bootstrap_expanded = jnp.expand_dims(next_values_bootstrap, 0)
 
     all_next_values = jnp.concatenate([values[1:], bootstrap_expanded], axis=0)
